@@ -180,7 +180,7 @@ def error_enumerators():
 
 
 def check_C13(ctx):
-    proofs_or_violation(ctx, ['Properties_C13.v'])
+    proofs_or_violation(ctx, ['Properties_C13.v'], bridge=False)
     pool = get_pool()
     rng = ctx.rng
     # Optional / Entry
@@ -261,7 +261,7 @@ def var_alphabet(objs, alts, vals, becomes, throws):
 
 
 def check_C12(ctx):
-    proofs_or_violation(ctx, ['Properties_C12.v'])
+    proofs_or_violation(ctx, ['Properties_C12.v'], bridge=False)
     pool = get_pool()
     setups = [[], ['N0'], ['V0:0:5:0'], ['V0:1:5:0', 'N1'], ['V0:0:5:0', 'V1:2:6:0'], ['V0:2:5:0', 'V1:2:6:0'], ['N0', 'N1'],
               ['V0:1:5:0', 'V1:0:6:0', 'N2']]
@@ -713,7 +713,7 @@ def library_static_storage(binary):
 
 
 def check_C19(ctx):
-    proofs_or_violation(ctx, ['Properties_C19.v'])
+    proofs_or_violation(ctx, ['Properties_C19.v'], bridge=False)
     pool = get_pool()
     rng = ctx.rng
     # ---- no static state in the library other than ThreadLocal's cell
